@@ -978,6 +978,13 @@ func init() {
 			g.Name = fmt.Sprintf("png-icc%d-then-135KB-of-ancillary-chunks", sz)
 			files = append(files, g)
 		}
+		// frame headers declaring a zero height or width (legal: the height may come later in a DNL segment) in front
+		// of a large scan: what is needed still ends with the headers
+		for k, wh := range [][2]uint16{{64, 0}, {0, 64}, {0, 0}} {
+			g := buildJPEG(rng, jpegOpt{w: wh[0], h: wh[1], precision: 8, ncomp: 3, nBefore: 1, nAfter: 1, body: 300000, realTables: tables})
+			g.Name = fmt.Sprintf("jpeg-%dx%d-with-300KB-scan-%d", wh[0], wh[1], k)
+			files = append(files, g)
+		}
 		// JPEGs whose frame header comes first and whose last needed structure is a large ICC segment (the cut at
 		// end_of_needed then falls right behind a segment several buffers long)
 		for k, sz := range []int{9000, 30000, 70000} {
@@ -1099,6 +1106,30 @@ func init() {
 			}
 		}
 		c.runJobs(jobs)
+		// order of calls: right after a load whose needed prefix was large (a 600 KB profile), small files are read
+		// no further than before (nothing about the previous input sizes the next read)
+		bigICC := buildPNG(rng, pngOpt{w: 10, h: 10, depth: 8, ctype: 2, nAnc: 1, icc: genProfile(rng, 600000, false), iccName: "big", iccLevel: 0, iccPos: 1, body: 100, smallAnc: true})
+		bigJ := buildJPEG(rng, jpegOpt{w: 10, h: 10, precision: 8, ncomp: 3, nBefore: 1, icc: genProfile(rng, 500000, false), body: 100, realTables: tables})
+		for _, big := range []*mfile{bigICC, bigJ} {
+			for _, f := range files {
+				if f.End < 0 || f.End > 5000 || len(f.Data) < f.End+200000 {
+					continue
+				}
+				func() {
+					defer func() { recover() }()
+					loaders[big.Fmt](bytes.NewReader(big.Data))
+				}()
+				for _, which := range []string{f.Fmt, "auto"} {
+					o := observeLoad(which, f.Data, allAtOnce)
+					c.res.count("after-big-load", big.Fmt+f.Name+which, true)
+					if o.Pulled > f.End+65536 {
+						c.res.fail(Failure{Class: "C18:" + f.Fmt + ":readahead-after-big-load", Desc: fmt.Sprintf("right after loading a %s with a %d-byte needed prefix, loader %s pulled %d bytes of %s whose needed structures end at %d", big.Fmt, big.End, which, o.Pulled, f.Name, f.End),
+							Input: map[string]interface{}{"history": "load " + big.Name + " (" + fmt.Sprint(len(big.Data)) + " bytes), then this file", "file": shortHex(f.Data), "loader": which}, Got: fmt.Sprint(o.Pulled), Want: fmt.Sprintf("<= %d", f.End+65536)})
+						break
+					}
+				}
+			}
+		}
 	}
 
 	// ---------- C19 ----------
